@@ -4,6 +4,12 @@
      (2 1 term probes writes)     built by the harness through type-erased sources
      (2 2 term probes writes)     the same, built with concrete adaptor types (the term skeletons
                                   of harness/src/c02/fixed.rs); identical for the model
+     (2 3 term shape' probes writes)   term = renames / reversals over ONE tensor leaf: build it,
+                                  reach the leaf through source_ref_mut() (directly and through
+                                  TensorView::source_ref_mut), `reshape_mut(shape')` it, then
+                                  observe the SAME view object.
+                                  result: (1 e) | (2) constructor failure | (0 (2)) reshape_mut
+                                  panics | (0 (0 observation)) with the observation of op 1
    term :=
      (0 id shape)                         leaf Tensor, element at flat offset k is id*1000 + k
      (1 term params) | (2 term params)    TensorRange | TensorMask
@@ -37,7 +43,7 @@
      flags    := 1/0 per write (landed / index absent); dump := every leaf's data after the writes
    errors: see the e_* encoders of Model/Views.v. *)
 From Coq Require Import List ZArith NArith Bool Arith.
-From EasyML Require Import Base.Sx Model.Shape Model.Views.
+From EasyML Require Import Base.Sx Model.Shape Model.Views Model.ViewsMut.
 Import ListNotations.
 Open Scope N_scope.
 
@@ -163,21 +169,40 @@ Fixpoint do_writes (c : cview) (st : list (N * list Z)) (ws : list (list N * Z))
       end
   end.
 
+Definition c02_observe (c : cview) (probes : list (list N)) (writes : list (list N * Z)) : sx :=
+  let D := length (c_shape c) in
+  if forallb (fun p => Nat.eqb (length p) D) probes
+     && forallb (fun w => Nat.eqb (length (fst w)) D) writes
+  then
+    let '(flags, st) := do_writes c (initial_store c) writes in
+    SL [ sshape (c_shape c);
+         soutcome slayout (c_layout c);
+         slist (sopt svalue) (map (c_get c) probes);
+         slist (sopt svalue) (view_values c);
+         soutcome (sopt (slist (sopt svalue))) (memory_order c);
+         SL [slist sbool flags; slist (fun p => slist SZ (snd p)) st] ]
+  else SL [SZ (-1)].
+
 Definition c02_view (v : view) (probes : list (list N)) (writes : list (list N * Z)) : sx :=
+  soutcome (fun c => c02_observe c probes writes) (v_ctor v).
+
+(* op 3: construct, reshape the leaf through source_ref_mut, then observe the SAME view object *)
+Definition c02_mutated (v : view) (sh' : shape) (probes : list (list N)) (writes : list (list N * Z)) : sx :=
   soutcome (fun c =>
-    let D := length (c_shape c) in
-    if forallb (fun p => Nat.eqb (length p) D) probes
-       && forallb (fun w => Nat.eqb (length (fst w)) D) writes
-    then
-      let '(flags, st) := do_writes c (initial_store c) writes in
-      SL [ sshape (c_shape c);
-           soutcome slayout (c_layout c);
-           slist (sopt svalue) (map (c_get c) probes);
-           slist (sopt svalue) (view_values c);
-           soutcome (sopt (slist (sopt svalue))) (memory_order c);
-           SL [slist sbool flags; slist (fun p => slist SZ (snd p)) st] ]
-    else SL [SZ (-1)])
-  (v_ctor v).
+    match reshape_mut c sh' with
+    | Some o => soutcome (fun c' => c02_observe c' probes writes) o
+    | None => SL [SZ (-1)]
+    end) (v_ctor v).
+
+Fixpoint has_bad (fuel : nat) (s : sx) : bool :=
+  match fuel with
+  | O => false
+  | S f => match s with
+           | SL [SZ (-1)%Z] => true
+           | SL [SZ 0%Z; r] => has_bad f r
+           | _ => false
+           end
+  end.
 
 Definition run_c02 (args : list sx) : sx :=
   match args with
@@ -186,12 +211,18 @@ Definition run_c02 (args : list sx) : sx :=
       | Some v, Some probes, Some writes =>
           if nodup_b (v_leaf_ids v) then
             let r := c02_view v probes writes in
-            match r with
-            | SL [SZ 0%Z; SL [SZ (-1)%Z]] => bad_case
-            | _ => r
-            end
+            if has_bad 3 r then bad_case else r
           else bad_case
       | _, _, _ => bad_case
+      end
+  | [SZ 3%Z; t; sh'; probes; writes] =>
+      match dview 40 t, dshape sh', dlist didx probes, dlist (dpair didx dZ) writes with
+      | Some v, Some sh', Some probes, Some writes =>
+          if nodup_b (v_leaf_ids v) then
+            let r := c02_mutated v sh' probes writes in
+            if has_bad 3 r then bad_case else r
+          else bad_case
+      | _, _, _, _ => bad_case
       end
   | _ => bad_case
   end.
